@@ -17,6 +17,35 @@ import (
 type runCfg struct {
 	raftkvs.Config
 	MaxDev int
+	// Seed: "" = search from the initial state; "elect" = from the state after server 1 won the
+	// first election; "commit-lagging" = additionally one client request committed on a bare
+	// majority that excludes the highest-numbered server (whose AppendEntries is still in flight).
+	Seed string
+}
+
+func build(cfg runCfg) (*ss.System, error) {
+	sys := raftkvs.New(cfg.Config)
+	switch cfg.Seed {
+	case "":
+	case "elect":
+		if err := sys.Seed(cfg.SeedElect(1)); err != nil {
+			return nil, err
+		}
+	case "commit-lagging":
+		if err := sys.Seed(cfg.SeedElect(1)); err != nil {
+			return nil, err
+		}
+		var acks []int
+		for j := 2; j <= cfg.NumServers/2+1; j++ {
+			acks = append(acks, j)
+		}
+		if err := sys.Seed(cfg.SeedReplicate(1, 1, acks)); err != nil {
+			return nil, err
+		}
+	default:
+		return nil, fmt.Errorf("unknown seed %q", cfg.Seed)
+	}
+	return sys, nil
 }
 
 type replay struct {
@@ -32,7 +61,10 @@ func TestCheck(t *testing.T) {
 			if err := json.Unmarshal(env.Replay, &r); err != nil {
 				t.Fatal(err)
 			}
-			sys := raftkvs.New(r.Cfg.Config)
+			sys, err := build(r.Cfg)
+			if err != nil {
+				t.Fatal(err)
+			}
 			states, last, _ := sys.Replay(r.Path)
 			res.Coverage = map[string]any{"states": len(states), "transitions": len(r.Path), "traces_validated_against_impl": 0, "samples": sys.Render(r.Path)}
 			for i, s := range states {
@@ -57,13 +89,15 @@ func TestCheck(t *testing.T) {
 		}
 		put := [][]raftkvs.Req{{{Type: "put", Key: "k", Value: "v"}}}
 		cfgs := []runCfg{
-			{raftkvs.Config{NumServers: 2, NumClients: 1, MaxTerm: 3, MaxCommitIndex: 3, FIFO: true, Budgeted: true, Requests: put}, 0},
-			{raftkvs.Config{NumServers: 2, NumClients: 1, MaxTerm: 3, MaxCommitIndex: 3, FIFO: true, Budgeted: true, Requests: put, ExploreFail: true, MaxNodeFail: 1}, 1},
+			{raftkvs.Config{NumServers: 2, NumClients: 1, MaxTerm: 3, MaxCommitIndex: 3, FIFO: true, Budgeted: true, Requests: put}, 0, ""},
+			{raftkvs.Config{NumServers: 2, NumClients: 1, MaxTerm: 4, MaxCommitIndex: 3, FIFO: true, Budgeted: true, Requests: put, ExploreFail: true, MaxNodeFail: 1}, 1, "elect"},
+			{raftkvs.Config{NumServers: 3, NumClients: 1, MaxTerm: 4, MaxCommitIndex: 3, FIFO: true, Budgeted: true, Requests: put}, 1, "commit-lagging"},
 		}
 		if env.Thorough() {
 			cfgs = append(cfgs,
-				runCfg{raftkvs.Config{NumServers: 3, NumClients: 1, MaxTerm: 3, MaxCommitIndex: 3, FIFO: true, Budgeted: true, Requests: put, ExploreFail: true, MaxNodeFail: 1}, 1},
-				runCfg{raftkvs.Config{NumServers: 2, NumClients: 1, MaxTerm: 4, MaxCommitIndex: 3, FIFO: true, Budgeted: true, Requests: put, ExploreFail: true, MaxNodeFail: 1}, 2})
+				runCfg{raftkvs.Config{NumServers: 3, NumClients: 1, MaxTerm: 3, MaxCommitIndex: 3, FIFO: true, Budgeted: true, Requests: put, ExploreFail: true, MaxNodeFail: 1}, 1, ""},
+				runCfg{raftkvs.Config{NumServers: 3, NumClients: 1, MaxTerm: 4, MaxCommitIndex: 3, FIFO: true, Budgeted: true, Requests: put, ExploreFail: true, MaxNodeFail: 1}, 2, "commit-lagging"},
+				runCfg{raftkvs.Config{NumServers: 2, NumClients: 1, MaxTerm: 4, MaxCommitIndex: 3, FIFO: true, Budgeted: true, Requests: put, ExploreFail: true, MaxNodeFail: 1}, 2, ""})
 		}
 		// each instance gets an equal share of the time budget; a capped instance reports the depth it completed
 		share := time.Until(env.Deadline) / time.Duration(len(cfgs)+1)
@@ -79,7 +113,13 @@ func TestCheck(t *testing.T) {
 		seen := map[string]bool{}
 		var samples []any
 		for _, cfg := range cfgs {
-			sys := raftkvs.New(cfg.Config)
+			sys, err := build(cfg)
+			if err != nil {
+				// the scripted prefix is not an execution of this tree: the scenario does not apply
+				per = append(per, map[string]any{"config": cfg, "seed_not_applicable": err.Error()})
+				exhaustive = false
+				continue
+			}
 			r := sys.BFS(ss.BFSOptions{Workers: env.Workers, Deadline: time.Now().Add(share), Constraint: cfg.Constraint, MaxDev: cfg.MaxDev, Invariants: cfg.Invariants(),
 				EdgeInvs: []func(*ss.State, int, *ss.Attempt) (string, string){cfg.LeaderAppendOnly}, FailedIsViolation: true})
 			if r.MemoMismatch > 0 {
